@@ -119,6 +119,42 @@ func ruleC09(c *Ctx, r *Report) {
 			fmt.Sprintf("associated data differs or is not constant: encrypt nil=%v decrypt nil=%v", ce.adIsNil, cd.adIsNil))
 	}
 
+	// the two siblings reach their primitive under the same preconditions: only error tests
+	// of the set-up calls - no test on the data (a length guard on one side rejects
+	// ciphertexts the other side produces, e.g. the 16-byte ciphertext of the empty string)
+	for _, cc := range []*cryptoChain{ce, cd} {
+		if cc.opCall == nil {
+			continue
+		}
+		var bad []string
+		nGuards := 0
+		for _, f := range factsAt(cc.opCall.Block()) {
+			nGuards++
+			okGuard := false
+			if bo, ok := f.Cond.(*ssa.BinOp); ok {
+				if v, _, isNilCmp := nilCompare(bo); isNilCmp && isErrorType(v.Type()) {
+					okGuard = true
+				}
+			}
+			if !okGuard {
+				bad = append(bad, describeCond(f.Cond)+" at "+c.InstrPos(f.If))
+			}
+		}
+		// and the data handed to the primitive is the parameter itself
+		dataOK := false
+		if len(cc.opCall.Call.Args) > 0 {
+			if _, isP := cc.opCall.Call.Args[0].(*ssa.Parameter); isP {
+				dataOK = true
+			}
+		}
+		if !dataOK {
+			bad = append(bad, "the data handed to the primitive is not the function's parameter as received")
+		}
+		r.Check(len(bad) == 0, "C09-R1", cc.fn.Name()+":preconditions", c.InstrPos(cc.opCall),
+			fmt.Sprintf("the primitive is reached under %d error test(s) of the set-up calls only, with the data parameter as received", nGuards),
+			"the primitive call is additionally guarded by, or fed with, something computed from the data: "+strings.Join(bad, "; "))
+	}
+
 	// ---- R2 same encoding, only conversions around
 	r.Floor("C09-R2", 4, "encode side, decode side, plaintext in, plaintext out")
 	encKey, decKey := fnFullName(enc), fnFullName(dec)
